@@ -786,7 +786,8 @@ func (w *c11xWorld) stepSeal() {
 	if err := w.tc.seal(); err != nil {
 		w.t.Fatalf("harness: seal: %v", err)
 	}
-	if len(w.devs) > 0 && fairIndex(w.rt, "unsealWhileEveryDeviceIsBroken", 3) == 0 {
+	if len(w.devs) > 0 && !w.tc.opts.ha && fairIndex(w.rt, "unsealWhileEveryDeviceIsBroken", 3) == 0 {
+		// (not on HA cores: a standby whose post-unseal set-up fails keeps retrying, the harness would wait out its patience)
 		// The node comes back while not one of its audit devices can be initialised. It may refuse to unseal (then the
 		// devices are repaired and it is unsealed again); if it does unseal, the table still lists enabled devices and
 		// the probes that follow decide as always: nothing is routed or returned without an accepted entry.
